@@ -120,6 +120,14 @@ class Ctx:
         self.cfgs = CFGCache(self.program)
         from . import dataflow as _df
         _df.RECORD_FIELDS = self._record_fields
+        names = set()
+        for ci in self.program.classes.values():
+            from .program import dotted as _d
+            bases = {(_d(b) or "").split(".")[-1] for b in ci.node.bases}
+            decos = {(_d(x if not isinstance(x, ast.Call) else x.func) or "").split(".")[-1] for x in ci.node.decorator_list}
+            if "NamedTuple" in bases or "dataclass" in decos:
+                names |= {st.target.id for st in ci.node.body if isinstance(st, ast.AnnAssign) and isinstance(st.target, ast.Name)}
+        _df.RECORD_FIELD_NAMES = names
         self._summaries = None
         self.notes: List[str] = []
         self.functions_analysed: set = set()
